@@ -5,8 +5,8 @@ CONSTANTS
   Kind = "nameaddr"
   Atoms <- AtomsParams2
   Prefix <- PfxABS
-  MaxLen = 7
-  Cfgs <- CfgsNA18
+  MaxLen = 8
+  Cfgs <- CfgsNA8
   Junk = 34
   EmitOn = TRUE
 INVARIANTS ResumeEqFresh Stable OffsSane Emit
